@@ -70,6 +70,30 @@ def suffix_of_param(pr, e, depth=0, visiting=None):
             base = (e[0], e[1], tuple(e[2][:-1])) + tuple(e[3:])
             return suffix_of_param(pr, base, depth + 1, visiting)
         return False
+    # what a slice iterator has not yielded yet is a suffix of the slice it was made from: `it.as_slice()`
+    if e[0] == "call" and e[1] in ("core::slice::iter::Iter::<'a, T>::as_slice", "core::slice::iter::IterMut::<'a, T>::as_slice",
+                                   "core::slice::iter::IterMut::<'a, T>::into_slice") and e[2]:
+        it = strip_ref(e[2][0])
+        srcs = []
+        if it[0] == "var":
+            for d in pr.tr.defs.get(it[2], []):
+                if d[2] == "call" and not d[3]["dest"]["p"]:
+                    srcs.append(vx._call(d[3], d[0], 0))
+                elif d[2] == "assign" and not d[3]["p"]["p"]:
+                    srcs.append(vx.rvalue(d[3]["rv"], d[0]))
+                else:
+                    return False
+        else:
+            srcs = [it]
+        ok = bool(srcs)
+        for s_ in srcs:
+            s_ = strip_ref(s_)
+            while s_[0] == "call" and s_[1].endswith("IntoIterator::into_iter") and s_[2]:
+                s_ = strip_ref(s_[2][0])
+            if not (s_[0] == "call" and s_[1] in ("core::slice::<impl [T]>::iter", "core::slice::<impl [T]>::iter_mut") and
+                    suffix_of_param(pr, s_[2][0], depth + 1, visiting)):
+                ok = False
+        return ok
     sf = split_first_parts(e)
     if sf is not None and sf[2] == 1:
         return suffix_of_param(pr, sf[0], depth + 1, visiting)
